@@ -350,3 +350,53 @@ def pad_unit(fill):
 
 for _f in (" ", "x", ""):
     pad_unit(_f)
+
+
+# ---------------------------------------------------------------------------------------------- old API: BaseImage._format_render
+def format_render_unit(h_align, v_align):
+    @unit("C05", f"common:BaseImage._format_render[{h_align},{v_align}]")
+    def u(ctx, h_align=h_align, v_align=v_align):
+        eng = ctx.engine(f"C05/_format_render[{h_align},{v_align}]", "C05")
+        eng.default_replay = "C05.format_render"
+        st = State()
+        cols, lines, width, height = z3.Ints("cols lines width height")
+        r0, TW, TH, B0 = z3.Ints("r0 TW TH bottom0")
+        PW, PH = SP.Max(width, cols), SP.Max(height, lines)
+        st.pc += [cols >= 1, lines >= 1, width >= 1, height >= 1, TW >= PW, TH >= 1, r0 >= 0, B0 >= r0, B0 - TH + 1 <= r0]
+        ha = {"<": SP.LEFT, ">": SP.RIGHT}.get(h_align, SP.CENTER)      # documented default: center / middle
+        va = {"^": SP.LEFT, "_": SP.RIGHT}.get(v_align, SP.CENTER)
+        l, t, r, b = SP.spec_exact_dims(width, height, ha, va, cols, lines)
+        self_ = st.new("BlockImage", {})
+        eng.attrs[("BlockImage", "rendered_size")] = lambda e, s, v: [((cols, lines), s)]
+        render = TS([Block(z3.Int("blk"), cols, lines)])
+        st.env.update(self=self_, render=render, h_align=h_align, width=width, v_align=v_align, height=height)
+        outs = run_function(eng, ctx.fn("image/common.py", "BaseImage._format_render"), st)
+
+        def line_pred(a, final):
+            i = a["line_idx"]
+            is_blk = z3.And(i >= t, i < t + lines)
+            return z3.And(z3.Not(a["irregular"]), a["line_w"] == PW, a["written"] == z3.If(is_blk, l + r, PW), a["skipped"] == 0,
+                          z3.If(is_blk, z3.And(a["blk_col"] == l, a["blk_line"] == i - t, a["blk_id"] == z3.Int("blk")), a["blk_col"] == -1))
+        for kind, val, s in outs:
+            if kind != "return":
+                eng.oblige(f"no-exception:{getattr(val, 'cls', kind)}", s, False, kind="raise")
+                continue
+            none = z3.And(width <= cols, height <= lines)
+            if val is render:
+                eng.oblige("render-returned-as-is-only-when-padding-has-no-effect", s, none, kind="post")
+                continue
+            eng.oblige("padded-output-only-when-padding-has-an-effect", s, z3.Not(none), kind="post")
+            s2 = s.fork()
+            s2.ghost["vt"] = vt_new(r0, z3.IntVal(0), B0, TW, TH)
+            vt = VT(eng, s2, tag="placement", line_pred=line_pred)
+            vt.feed(val).finish()
+            g = vt.g
+            eng.oblige("box:max(render,minimum)-lines,no-trailing-newline,cursor-after-last-cell", s2,
+                       And(to_z3(g["nl"]) == PH - 1, Not(g["last_nl"]), to_z3(g["row"]) == r0 + PH - 1, to_z3(g["col"]) == PW, z3.BoolVal(g["parser"] == "ground")), kind="post")
+        return eng.obligations
+    return u
+
+
+for _h in ("<", ">", "|", None):
+    for _v in ("^", "_", "-", None):
+        format_render_unit(_h, _v)
